@@ -125,6 +125,9 @@ func (s *String) ReadFrom(r io.Reader) (n int64, err error) {
 		return nn, err
 	}
 	n += nn
+	if l < 0 {
+		return n, errors.New("string length less than zero")
+	}
 
 	bs := make([]byte, l)
 	if _, err := io.ReadFull(r, bs); err != nil {
